@@ -1217,6 +1217,11 @@ func wgRunOne(b *BatchResult, prop string, seed, run uint64, p wgParams) {
 				b.Probes["histories_ending_with_a_rejected_variant"]++
 			}
 		}
+		if c.canon.ErrClass == "model_cycle" && r.chance(4) {
+			// a giant valid model with the same labels was built just before
+			wlh.Prelude = append(wlh.Prelude, giantVariant(m))
+			b.Probes["histories_ending_with_a_giant_model"]++
+		}
 		wlh.ReuseObject = r.chance(30)
 		ch := &wgCtx{wl: wlh, ref: c.ref, pm: c.pm, canon: c.canon, csnap: c.csnap}
 		s := canonS
